@@ -754,6 +754,22 @@ func runCheck(prop, tier, repo string, verbose bool, only string, timeout int) i
 	for _, a := range axioms {
 		assumptions = append(assumptions, "spec axiom (unproved): "+a)
 	}
+	nOv := 0
+	for _, o := range obls {
+		if o.Kind == "overflow" {
+			nOv++
+		}
+	}
+	nTerm := 0
+	for _, o := range obls {
+		if o.Kind == "termination" || o.Kind == "decreases" {
+			nTerm++
+		}
+	}
+	assumptions = append(assumptions, fmt.Sprintf("termination: proved for the loops of the functions under contract (%d `termination`/`decreases` obligations in this run: literal bounds by unrolling, range loops, a variant read off the loop condition or a `decreases` clause) and for recursion where a function-level `decreases` is written; loops listed as 'termination ... not proved', library calls, channel waits and goroutines are not covered", nTerm))
+	assumptions = append(assumptions,
+		fmt.Sprintf("integer model: mathematical integers; unsigned +,-,*,<< and all integer conversions wrap as in Go; every signed +,-,*,<<,++,--,unary - carries an `overflow` obligation (%d in this run) unless its function is listed with `opt no-overflow`; int is 64 bits wide (amd64/arm64)", nOv),
+		"slice lengths of parameters and call results are at most 2^48 (Go's maxAlloc on 64-bit platforms; element types of non-zero size)")
 	sort.Strings(assumptions)
 	samples := []interface{}{}
 	for i, o := range obls {
